@@ -1,5 +1,5 @@
 #!/bin/bash
-# verify_seed.sh <seed-id> <dir with patch.diff + zz_seeded_*.rs>
+# verify_seed.sh <seed-id> <dir with patch.diff + zz_seeded_*.rs> [base commit (default: /repo HEAD)]
 # Confirms, in a scratch worktree (never in /repo): the patch applies and the baseline suite still passes with it;
 # the demonstration fails with the patch and passes without it. Writes <dir>/verify.log.
 set -u
@@ -9,7 +9,8 @@ export CARGO_TARGET_DIR=/repo/target CARGO_NET_OFFLINE=true
 LOG=$DIR/verify.log; : > $LOG
 if [ ! -d $WT ]; then git -C /repo worktree add -q --detach $WT HEAD || exit 2; fi
 cd $WT || exit 2
-git checkout -q --detach $(git -C /repo rev-parse HEAD) 2>>$LOG; git checkout -q -- . ; rm -f tests/zz_seeded_*.rs tests/zz_verif_*.rs
+BASE=${3:-$(git -C /repo rev-parse HEAD)}
+git checkout -q --detach $BASE 2>>$LOG; git checkout -q -- . ; rm -f tests/zz_seeded_*.rs tests/zz_verif_*.rs
 echo "== base commit $(git rev-parse --short HEAD)" >> $LOG
 git apply --check $DIR/patch.diff 2>>$LOG || { echo "RESULT patch-does-not-apply" >> $LOG; exit 1; }
 git apply $DIR/patch.diff
